@@ -258,7 +258,7 @@ func genLog(r *rand.Rand, format int, nBatches int, emptyBias int) (items []Item
 		}
 		base, last := off, off+int64(n)-1
 		off += int64(n)
-		if r.Intn(8) == 0 {
+		if r.Intn(8) == 0 && !lastBatch {
 			off += int64(1 + r.Intn(3)) // whole batches removed: offsets nobody holds
 		}
 		switch f {
@@ -394,6 +394,9 @@ func main() {
 			}
 		}
 		sub := items[from:]
+		if o == hwm {
+			sub = nil // a broker has nothing to send at the log end
+		}
 		set, _ := EncodeLayout(sub, -1)
 		cut := -1
 		if len(set) > 0 {
@@ -416,6 +419,7 @@ func main() {
 		}
 		iterCase(vers[i%3], o, hwm, items, budgets)
 	}
+	readerCases(r, thorough)
 }
 
 func minInt(a, b int) int {
